@@ -3,6 +3,11 @@
 package hsmsss
 
 import (
+	"errors"
+	"io"
+	"net"
+	"time"
+
 	"github.com/arloliu/go-secs/v2/hsms"
 )
 
@@ -170,4 +175,69 @@ func VerifC08_Sequences() {
 		n = 3
 	}
 	c08Run(n, true)
+}
+
+// ---- C08: a second TCP connection to a passive endpoint is refused, the live one undisturbed ----
+
+type c08Listener struct {
+	conns []net.Conn
+	next  int
+}
+
+func (l *c08Listener) Accept() (net.Conn, error) {
+	if l.next >= len(l.conns) {
+		return nil, errors.New("model: listener closed")
+	}
+	c := l.conns[l.next]
+	l.next++
+	return c, nil
+}
+func (l *c08Listener) Close() error   { return nil }
+func (l *c08Listener) Addr() net.Addr { return nil }
+
+// c08Parked is a socket whose Read parks until released (a live, idle peer), then reports EOF.
+type c08Parked struct {
+	vconn
+	release chan struct{}
+}
+
+func (c *c08Parked) Read(p []byte) (int, error) {
+	<-c.release
+	return 0, io.EOF
+}
+
+// VerifC08_SecondConnectionRefused: the real accept loop with a listener that hands out the first
+// peer and then 1..3 further dialers before it is closed: exactly one TCPUp (the first socket), each
+// later socket is closed at once, the first one is neither closed nor replaced, and nothing is
+// reported down while the late dialers come and go.
+func VerifC08_SecondConnectionRefused() {
+	vsymExpect("refused")
+	rt := &vrt{state: hsms.NotConnectedState, timers: hsms.TimerConfig{T8: time.Second}}
+	tr := newVT(rt, false)
+	first := &c08Parked{release: make(chan struct{})}
+	clock := int64(0)
+	first.clock = &clock
+	extras := 1 + vsymChoose(3)
+	ln := &c08Listener{conns: []net.Conn{first}}
+	var late []*vconn
+	for i := 0; i < extras; i++ {
+		c := &vconn{clock: &clock}
+		late = append(late, c)
+		ln.conns = append(ln.conns, c)
+	}
+	tr.wg.accept.Add(1)
+	tr.acceptLoop(tr.wg, ln)
+	vsymReach("refused")
+	vsymAssert(rt.tcpUp == 1, "exactly-one-connection-adopted")
+	vsymAssert(tr.conn == net.Conn(first), "the-first-connection-stays-the-session")
+	vsymAssert(!first.closed, "live-connection-not-closed-by-a-late-dialer")
+	for _, c := range late {
+		vsymAssert(c.closed && c.reads == 0 && len(c.wrote) == 0, "late-dialer-closed-at-once-nothing-read-or-written")
+	}
+	vsymAssert(len(rt.tcpDown) == 0 && rt.selLost == 0, "live-link-undisturbed")
+	vsymAssert(rt.state == hsms.NotSelectedState, "still-connected-not-selected")
+	// release the parked peer so that the receive loop ends (exactly one drop report)
+	close(first.release)
+	tr.wg.recv.Wait()
+	vsymAssert(len(rt.tcpDown) == 1, "peer-close-then-reports-one-TCPDown")
 }
